@@ -279,6 +279,14 @@ def specShl (x y : F64) : Int := wrapS 32 (specToIntS 32 x * 2 ^ ((specToIntU 32
 def specSar (x y : F64) : Int := wrapS 32 (specToIntS 32 x / 2 ^ ((specToIntU 32 y).toNat % 32))
 def specShr (x y : F64) : Int := wrapU 32 (specToIntU 32 x / 2 ^ ((specToIntU 32 y).toNat % 32))
 
+/-! ## BigInt → Number (`Number(bigint)`, `new Number(bigint)`) -/
+
+/-- runtime.go:871/875/891/896 `intToValue((*big.Int)(b).Int64())`: `Int64()` is the low 64 bits when `b` does not fit -/
+def numberOfBigInt (b : Int) : Num := intToValue (wrapS 64 b)
+
+/-- ECMA-262 Number(bigint) = 𝔽(ℝ(b)): the nearest double, as the canonical value -/
+def specNumberOfBigInt (b : Int) : Num := floatToValue (F64.ofInt b)
+
 /-- Same-NaN-class equality of doubles: the observable identity of Number values (SameValue). -/
 def sameDouble (x y : F64) : Bool := specSameValue x y
 
